@@ -31,7 +31,6 @@ import (
 	"github.com/feichai0017/NoKV/raftstore/engine"
 	"github.com/feichai0017/NoKV/utils"
 	"github.com/feichai0017/NoKV/vfs"
-	"github.com/feichai0017/NoKV/manifest"
 	"github.com/feichai0017/NoKV/wal"
 	"verif/harness/internal/core"
 	"verif/harness/internal/crash"
@@ -222,9 +221,13 @@ func workerMain(args []string) int {
 			line("OPENERR " + err.Error())
 			return 3
 		}
-		// the same configuration DB.Open builds for its watchdog
-		dog = wal.NewWatchdog(wal.WatchdogConfig{Manager: db.WAL(), Interval: time.Hour, MinRemovable: 1, MaxBatch: 4, WarnRatio: 0.35, WarnSegments: 6,
-			RaftPointers: func() map[uint64]manifest.RaftLogPointer { return db.Manifest().RaftPointerSnapshot() }})
+		// the database's own watchdog (enabled in options with an hour's interval: it only
+		// evaluates when a "watchdog" step calls RunOnce)
+		dog = db.VerifWALWatchdog()
+		if dog == nil {
+			line("OPENERR the database has no WAL watchdog")
+			return 3
+		}
 	}
 	line("OPENED")
 	// the model term of existing entries is needed for snapshots
@@ -297,6 +300,10 @@ func options(dir string) *NoKV.Options {
 	cfg := dbx.Config{Engine: "skiplist", ValueThreshold: 1024, Buckets: 1, VlogFileSize: 1 << 20, ManifestRewrite: 2048, MemTableSize: 4 << 10, L0Tables: 4}
 	o := cfg.Options(dir)
 	o.NumCompactors = 1
+	o.EnableWALWatchdog = true
+	o.WALAutoGCInterval = time.Hour
+	o.WALAutoGCMinRemovable = 1
+	o.WALAutoGCMaxBatch = 4
 	return o
 }
 
@@ -376,7 +383,9 @@ func verifyMain(args []string) int {
 		return write()
 	}
 	defer db.Close()
-	// segments still present after the DB's own recovery (which may remove some)
+	// segments still present after the DB's own recovery, including the flush of the recovered
+	// memtables (both may remove segments; the flush runs in the background after Open returns)
+	db.VerifLSM().VerifWaitFlush(15 * time.Second)
 	if files, err := filepath.Glob(filepath.Join(dir, "*.wal")); err == nil {
 		for _, f := range files {
 			if n, err := strconv.Atoi(strings.TrimSuffix(filepath.Base(f), ".wal")); err == nil {
